@@ -189,7 +189,31 @@ def rule_r2(ctx) -> List[R.Inst]:
         insts.append(R.undec(rid, "sorted-before-fill", file, fn.node.lineno, f"{len(fills)} fill/diff sites, {len(und)} unresolved"))
     else:
         insts.append(R.ok(rid, "sorted-before-fill", file, fills[0].line, idiom=f"{len(fills)} fill/diff sites on offset-sorted frames"))
-    # breakpoints: tempo rows carry (offset, bpm); interval = next offset - own
+    # a concat that appends head/tail sentinels has rows with EQUAL offsets by construction (the sentinel sits on the first /
+    # last object, which may be a tempo point); a forward fill after the sort depends on their relative order, so the sort
+    # must be stable (numpy's default quicksort keeps ties in order only for short inputs)
+    for n in walk_no_nested(fn.node):
+        if isinstance(n, ast.Call) and isinstance(n.func, ast.Attribute) and n.func.attr in ("ffill", "bfill"):
+            root, calls = _chain(n)
+            names = [c.func.attr for c in calls]
+            if "concat" in names and "sort_values" in names and names.index("sort_values") < names.index(n.func.attr):
+                sv = calls[names.index("sort_values")]
+                between = names[names.index("concat") + 1:names.index("sort_values")]
+                if any(b in ("groupby", "drop_duplicates") for b in between):
+                    continue      # ties were reduced before the sort
+                kind = next((k.value for k in sv.keywords if k.arg == "kind"), None)
+                stable = isinstance(kind, ast.Constant) and kind.value in ("stable", "mergesort")
+                key = "stable-sort-before-fill"
+                if stable:
+                    insts.append(R.ok(rid, key, file, sv.lineno, idiom="sort_values(..., kind='stable') before the fill"))
+                else:
+                    insts.append(R.viol(rid, key, file, sv.lineno,
+                                        "the sentinel rows appended after the tempo rows share their offset with a tempo point whenever the "
+                                        "first / last object sits on one; after an unstable sort_values the sentinel may precede that tempo "
+                                        "row, the forward fill then gives it the PREVIOUS bpm and the breakpoint appears twice, once with a "
+                                        "wrong speed (seen with long unsorted tempo lists)",
+                                        construct="sort_values('offset') without kind='stable' before ffill on a concat with sentinels"))
+                break
     return insts
 
 
@@ -293,7 +317,7 @@ def rule_dep(ctx):
 
 SPECS = [
     RuleSpec("C19.R1", rule_r1, 4, "A5", "dominant bpm: stages in order, span ends at the last object, intervals paired with their own bpm, grouped by value"),
-    RuleSpec("C19.R2", rule_r2, 3, "A7", "scroll speed: formula shape, SV precedence over coincident tempo reset, sorted before fills"),
+    RuleSpec("C19.R2", rule_r2, 4, "A7", "scroll speed: formula shape, SV precedence over coincident tempo reset, sorted before fills"),
     RuleSpec("C19.R3", rule_r3, 5, "A7", "sv_normalize: one row per tempo point, multiplier = reference / bpm, projection onto declared SV columns"),
     RuleSpec("C19.R4", rule_r4, 2, "A7", "an override replaces the reference in both"),
     RuleSpec("C19.D", rule_dep, 1, "M0", "rules of the shared code (timing engine, list classes, stacker) that the operations of this property reach"),
